@@ -993,27 +993,17 @@ _PATCH_NOTE = []
 
 
 def _maybe_patch():
-    """C08_PATCH=1 (OFF by default, development only): apply, IN THIS PROCESS and never in /repo, the three proposed repairs --
-    IPMW._monotone_variables builds its running products on the data's index; the log-risk-ratio influence curves of
-    aipw_calculator and of TMLE.fit (rows with a missing outcome) are written as D1/mean(Q1) - D0/mean(Q0).  With the
-    switch on the run reports no violation, which shows that exactly these three sites are responsible."""
+    """C08_PATCH=1 (OFF by default, development only): apply, IN THIS PROCESS and never in /repo, the proposed repair of the
+    one remaining (known) finding -- the log-risk-ratio influence curve of aipw_calculator written as
+    D1/mean(Q1) - D0/mean(Q0).  With the switch on the run reports nothing at all, which shows that exactly this site is
+    responsible.  (The IPMW index and TMLE missing-row repairs that this switch also carried are in /repo since
+    fcd57a5 / 4895d4a.)"""
     import os
     if os.environ.get('C08_PATCH') != '1' or _PATCH_NOTE:
         return
     import importlib
     import inspect
     import sys
-    import textwrap
-    importlib.import_module('zepid.causal.ipw.IPMW')
-    mod = sys.modules['zepid.causal.ipw.IPMW']
-    src = textwrap.dedent(inspect.getsource(mod.IPMW._monotone_variables))
-    for v in ('probs_denom', 'probs_num'):
-        old = '%s = pd.Series([1] * self.df.shape[0])' % v
-        assert old in src
-        src = src.replace(old, '%s = pd.Series([1] * self.df.shape[0], index=self.df.index)' % v)
-    ns = {}
-    exec(src, vars(mod), ns)
-    mod.IPMW._monotone_variables = ns['_monotone_variables']
     um = importlib.import_module('zepid.causal.utils')
     src = inspect.getsource(um.aipw_calculator)
     old = ("            ic = ((a*(y-py_o)) / (np.mean(py_a)*pa1) + (py_a - np.mean(py_a)) -\n"
@@ -1025,16 +1015,7 @@ def _maybe_patch():
     exec(src, vars(um), ns)
     importlib.import_module('zepid.causal.doublyrobust.AIPW')
     sys.modules['zepid.causal.doublyrobust.AIPW'].aipw_calculator = ns['aipw_calculator']
-    importlib.import_module('zepid.causal.doublyrobust.TMLE')
-    tm = sys.modules['zepid.causal.doublyrobust.TMLE']
-    src = textwrap.dedent(inspect.getsource(tm.TMLE.fit))
-    old = '(Qstar1 - np.mean(Qstar1)) + Qstar0 - np.mean(Qstar0))'
-    assert old in src
-    src = src.replace(old, '(Qstar1 - np.mean(Qstar1)) / np.mean(Qstar1) - (Qstar0 - np.mean(Qstar0)) / np.mean(Qstar0))')
-    ns = {}
-    exec(src, vars(tm), ns)
-    tm.TMLE.fit = ns['fit']
-    _PATCH_NOTE.append('C08_PATCH=1: IPMW._monotone_variables, aipw_calculator and TMLE.fit replaced in-process by their patched source')
+    _PATCH_NOTE.append('C08_PATCH=1: aipw_calculator replaced in-process by its patched source')
 
 
 # ====================================================================================================== driver
